@@ -37,10 +37,21 @@ def _frame(ctxs):
     })
 
 
+def _repeat(p):
+    """direct recursion: one of the frames occurs 4-6 times in a row (the standard traceback rendering collapses such
+    runs into a 'Previous line repeated' line)"""
+    frames, n, at = p
+    if not n or not frames:
+        return frames
+    at %= len(frames)
+    return frames[:at] + [dict(frames[at]) for _ in range(n)] + frames[at + 1:]
+
+
 def _stack(frames, top=False):
     return st.fixed_dictionaries({
         "root": st.sampled_from([None, "rt", "rt"]),
-        "frames": st.lists(frames, min_size=0, max_size=3),
+        "frames": st.tuples(st.lists(frames, min_size=0, max_size=3), st.sampled_from([0] * 9 + [4, 6]),
+                            st.integers(0, 2)).map(_repeat),
         "leaf": st.sampled_from([None, None, "lf"]),
         "error": st.sampled_from([None] * 7 + ["single", "group", "raised", "multiline", "group_raised", "chained"]),
     })
